@@ -1,0 +1,30 @@
+//go:build verif
+
+package fasthttp
+
+import "io"
+
+// Thin exports for the /verif correspondence harness (property C22).
+
+// VerifStacklessWrite runs the stackless compression entry point of the given coding
+// ("gzip", "deflate", "br", "zstd") with an arbitrary writer, so that the harness can
+// occupy the worker of that coding's stackless function deterministically.
+func VerifStacklessWrite(coding string, w io.Writer, p []byte, level int) {
+	ctx := &compressCtx{w: w, p: p, level: level}
+	switch coding {
+	case "gzip":
+		stacklessWriteGzip(ctx)
+	case "deflate":
+		stacklessWriteDeflate(ctx)
+	case "br":
+		stacklessWriteBrotli(ctx)
+	case "zstd":
+		stacklessWriteZstd(ctx)
+	default:
+		panic("unknown coding " + coding)
+	}
+}
+
+func VerifMinCompressLen() int { return minCompressLen }
+
+func VerifNormalizeCompressLevel(level int) int { return normalizeCompressLevel(level) }
